@@ -132,6 +132,35 @@ JudgeAddr(O(_, _), r) ==
          ELSE IF g.v THEN Ok
          ELSE WithDeviation(O, r, "no-standard-form-but-nonstandard-address-returned", <<>>)
 
+(* ---------------------------------------------------------------- call histories -------------------------------- *)
+DevCache == "address-cache-ignores-script-type-and-compressed"
+\* r.obj, r.wt, r.net (network at creation), r.d (scalar), r.comp0, r.calls; r.acc / r.got: the answer to the last call
+JudgeHist(O(_, _), r) ==
+    LET last == r.calls[Len(r.calls)]
+        net  == HistNet(r.net, r.calls)
+        cs   == SetSeq(HistCandidates(r.obj, r.wt, r.comp0, r.calls))
+        T(i) == IF i > Len(cs) THEN Ret(FALSE)
+                ELSE Map1(LAMBDA a : a = r.got, StdAddrP(O, net, cs[i][1], "key", r.d, cs[i][2], last.pfx))
+        g == OrElse(T(1), OrElse(T(2), OrElse(T(3), OrElse(T(4), OrElse(T(5), OrElse(T(6), OrElse(T(7), T(8))))))))
+    IN IF Len(cs) > 8 \/ cs = <<>> THEN Bad("history-candidates", "", <<>>)
+       ELSE IF ~r.acc THEN (IF \E i \in 1..Len(cs) : UncompressedSegwit(cs[i][1], "key", r.d, cs[i][2]) THEN Ok
+                            ELSE Bad("address-refused-after-history", "", <<>>))
+       ELSE IF g.q # {} THEN Need(g.q)
+       ELSE IF g.v THEN Ok
+       ELSE LET e1 == StdAddrP(O, net, cs[1][1], "key", r.d, cs[1][2], last.pfx)
+                \* named deviation: the Address object cached by an earlier address call is returned when the prefix
+                \* given now equals the cached one and the encoding is the same; the script type and compressed
+                \* arguments of the call are ignored - the answer is the address of this key under the given prefix
+                \* for another script type / serialization
+                ds   == SetSeq({<<t, c>> : t \in {u \in DefaultKeyTypes : last.e = "" \/ EncOf(u) = last.e}, c \in BOOLEAN})
+                D(i) == IF i > Len(ds) THEN Ret(FALSE)
+                        ELSE Map1(LAMBDA a : a = r.got, StdAddrP(O, net, ds[i][1], "key", r.d, ds[i][2], last.pfx))
+                dv == IF last.pfx # <<>> /\ \E j \in 1..(Len(r.calls) - 1) : r.calls[j].op \in {"address", "address_uncompressed"}
+                      THEN OrElse(D(1), OrElse(D(2), OrElse(D(3), OrElse(D(4), OrElse(D(5), D(6))))))
+                      ELSE Ret(FALSE)
+            IN IF dv.q # {} THEN Need(dv.q)
+               ELSE Bad("address-after-history", IF dv.v THEN DevCache ELSE "", IF e1.q = {} THEN e1.v ELSE <<>>)
+
 JudgeWith(r, facts) ==
     LET O(f, m) == Fact([facts |-> facts], f, m) IN
     CASE r.kind = "consts" -> [v |-> "ok", dev |-> "", exp |-> <<FieldP, OrderN>>]
@@ -142,6 +171,7 @@ JudgeWith(r, facts) ==
       [] r.kind = "addr"   -> JudgeAddr(O, IF r.route = "hdkey"
                                                THEN [r EXCEPT !.t = WitnessTypeAddr(r.wt).t, !.e = WitnessTypeAddr(r.wt).e]
                                                ELSE r)
+      [] r.kind = "hist"   -> JudgeHist(O, r)
       [] OTHER -> Bad("unknown-record-kind", "", <<>>)
 
 (* The oracle loop.  Open requests of all records are written to a file, the helper named by the environment     *)
